@@ -53,22 +53,22 @@ SKIPPED_FIELDS: Dict[Tuple[str, str], str] = {
 }
 
 # R12.6: operand mutation sites that exist on the reference tree (by design of those operators: the result reuses the
-# operand's objects); key = function / normalised statement
+# operand's objects); key = function / statement with the function's LOCAL variables written § (sa.core.norm_locals), so that the
+# table survives a renaming of locals
 OPERAND_MUTATION_REFERENCE: Dict[Tuple[str, str], str] = {
     # (function, statement prefix) -> reason
     ("vtlengine.Operators.Assignment.Assignment.validate", "right_operand.name = left_operand"): "assignment renames its freshly computed right operand to the target name",
-    ("vtlengine.Operators.Conditional.If.validate", "left.data_type = right.data_type = binary_implicit_promotion("): "if-then-else unifies the branch types in place (branches are per-statement temporaries)",
-    ("vtlengine.Operators.Conditional.If.validate", "component.data_type = right.components[component.name].data_type = "): "if-then-else unifies branch component types in place (per-statement temporaries)",
+    ("vtlengine.Operators.Conditional.If.validate", "§.data_type = §.data_type = binary_implicit_promotion("): "if-then-else unifies the branch types in place (branches are per-statement temporaries)",
+    ("vtlengine.Operators.Conditional.If.validate", "§.data_type = §.components[§.name].data_type ="): "if-then-else unifies branch component types in place (per-statement temporaries)",
     ("vtlengine.Operators.General.Eval.validate", "output.name = external_routine.name"): "eval names its declared output",
-    ("vtlengine.Operators.Join.Join.merge_components", "comp.role = Role.IDENTIFIER if is_identifier else"): "join works on copies made by its caller",
     ("vtlengine.Operators.Join.Apply.create_dataset", "prefix += '#'"): "string augmentation (immutable value)",
-    ("vtlengine.Operators.Join.Apply.create_dataset", "component.name = component.name[len(prefix):] if"): "apply strips alias prefixes on the join temporary",
+    ("vtlengine.Operators.Join.Apply.create_dataset", "§.name = §.name[len(prefix):] if"): "apply strips alias prefixes on the join temporary",
     ("vtlengine.Operators.Numeric.Random.validate", "index.data_type = binary_implicit_promotion(index.data_type, Integer)"): "random promotes its index scalar in place (constant operand)",
     ("vtlengine.Operators.RoleSetter.RoleSetter.validate", "operand.role = cls.role"): "role setters act on the calc temporary",
-    ("vtlengine.Operators.Set.Set.validate", "result_components[comp_name].data_type = binary_implicit_promotion("): "set operators promote the first operand's components in place (reference behaviour)",
-    ("vtlengine.Operators.Set.Set.validate", "result_components[comp_name].nullable = current_comp.nullable or comp.nullable"): "set operators widen nullability of the first operand's components in place (reference behaviour)",
-    ("vtlengine.Operators.Validation.Check.validate", "result_components['imbalance'].name = 'imbalance'"): "check renames the imbalance component of its temporary operand",
-    ("vtlengine.Operators.Conditional.If.validate", "component.data_type = binary_implicit_promotion(component.data_type, right.data_type)"): "if-then-else promotes then-branch measures against a scalar else-branch in place (per-statement temporaries)",
+    ("vtlengine.Operators.Set.Set.validate", "§[§].data_type = binary_implicit_promotion("): "set operators promote the first operand's components in place (reference behaviour)",
+    ("vtlengine.Operators.Set.Set.validate", "§[§].nullable = §.nullable or §.nullable"): "set operators widen nullability of the first operand's components in place (reference behaviour)",
+    ("vtlengine.Operators.Validation.Check.validate", "§['imbalance'].name = 'imbalance'"): "check renames the imbalance component of its temporary operand",
+    ("vtlengine.Operators.Conditional.If.validate", "§.data_type = binary_implicit_promotion(§.data_type, §.data_type)"): "if-then-else promotes then-branch measures against a scalar else-branch in place (per-statement temporaries)",
     ("vtlengine.Model.Dataset.delete_component", "self.components.pop(component_name, None)"): "aggr clause / check_hierarchy drop a component of their working dataset (reference behaviour)",
     ("vtlengine.Model.Dataset.delete_component", "self.data.drop(columns=[component_name], inplace=True)"): "aggr clause / check_hierarchy drop a component of their working dataset (reference behaviour)",
     ("vtlengine.Model.Dataset.add_component", "self.components[component.name] = component"): "aggr clause adds the aggregated components to a result sharing the working dataset's component dict (reference behaviour)",
@@ -218,11 +218,24 @@ def run(rep: Report, tier: str) -> None:
     rep.instance("R12.2", "all-groups-re-emitted", nontrivial=True, sample={"groups": groups, "assignment": src(final[0])[:120] if final else None})
     if not final:
         raise AnalysisError("sort_ast: assignment to ast.children not found")
-    used = {x.id for x in ast.walk(final[0].value) if isinstance(x, ast.Name)}
-    list_groups = [g_ for g_ in groups if g_ not in ("statements_nodes",)]
-    inter_def = [n for n in walk_no_nested(sa_.node) if isinstance(n, ast.Assign) and src(n.targets[0]) == "intermediate"]
-    consumed = used | ({x.id for x in ast.walk(inter_def[0].value) if isinstance(x, ast.Name)} if inter_def else set())
-    missing = [g_ for g_ in list_groups if g_ not in consumed]
+    # every group list must flow (through local definitions, transitively) into the value assigned to ast.children;
+    # the group of SORTABLE statements (the one filtered with `not isinstance`) flows in through sort_elements
+    local_defs: Dict[str, List[ast.AST]] = {}
+    for n in walk_no_nested(sa_.node):
+        if isinstance(n, (ast.Assign, ast.AnnAssign)) and getattr(n, "value", None) is not None:
+            for t in (n.targets if isinstance(n, ast.Assign) else [n.target]):
+                if isinstance(t, ast.Name):
+                    local_defs.setdefault(t.id, []).append(n.value)
+    consumed: Set[str] = set()
+    work = [x.id for x in ast.walk(final[0].value) if isinstance(x, ast.Name)]
+    while work:
+        v = work.pop()
+        if v in consumed:
+            continue
+        consumed.add(v)
+        for d in local_defs.get(v, []):
+            work.extend(x.id for x in ast.walk(d) if isinstance(x, ast.Name))
+    missing = [g_ for g_ in groups if g_ not in consumed]
     if missing:
         rep.add(Finding("R12.2", "R12.2/all-groups-re-emitted", sa_.module.rel, final[0].lineno, sa_.qualname,
                         f"top-level nodes collected in {missing} are dropped from the re-ordered script"))
@@ -374,12 +387,12 @@ def run(rep: Report, tier: str) -> None:
             rep.instance("R12.6", f.qualname, nontrivial=True,
                          sample={"method": f.qualname, "operand_mutation_sites": len(summ.sites)} if c.qualname.endswith(("Operators.Binary", "Operators.Unary")) else None)
             for s in summ.sites:
-                ref = [r for r in OPERAND_MUTATION_REFERENCE if r[0] == s.func and s.text.startswith(r[1])
+                ref = [r for r in OPERAND_MUTATION_REFERENCE if r[0] == s.func and (s.norm or s.text).startswith(r[1])
                        and (r[0].startswith("vtlengine.Operators.") or f.qualname in MODEL_SITE_ENTRIES.get(r, ()))]
                 if ref:
                     seen_ref.add(f"{ref[0][0]}/{ref[0][1]}")
                     continue
-                k = f"{s.func}/{s.text[:70]}"
+                k = f"{s.func}/{(s.norm or s.text)[:70]}"
                 rep.add(Finding("R12.6", f"R12.6/{k}", s.file, s.line, s.func,
                                 f"`{s.text}` mutates an object reachable from operand(s) {list(s.origins)} of {f.qualname}: operands are the datasets "
                                 f"stored for later statements, so their structure would depend on which statements ran before", list(s.chain)))
